@@ -95,7 +95,9 @@ def replay_schedule(agp, sched, kind, dtype, implicit):
     def node(r, j):
         if (r, j) not in nodes:
             lab = nl[agp['rules'][r - 1]['nodes'][j - 1]]
-            nodes[(r, j)] = Node(lab) if implicit else Node(lab, id=f'v{r}_{j}')
+            # implicit: 1 = implicit ids, 0 = explicit ids unique in the grammar, 2 = explicit ids LOCAL to the rule
+            # (n1, n2, .. / e1, e2, .. re-used by every rule: two copies of a production are then equal objects)
+            nodes[(r, j)] = Node(lab) if implicit == 1 else Node(lab, id=(f'n{j}' if implicit == 2 else f'v{r}_{j}'))
         return nodes[(r, j)]
     table = agp['wmp'] if kind == 'mp' else agp['w']
     for it in sched:
@@ -104,7 +106,7 @@ def replay_schedule(agp, sched, kind, dtype, implicit):
             rhs.setdefault(it[1], Graph()).add_node(node(it[1], it[2]))
         elif k == 'edge':
             e = agp['rules'][it[1] - 1]['edges'][it[2] - 1]
-            ed = Edge(el[e['lab']], [node(it[1], a) for a in e['att']], id=None if implicit else f'e{it[1]}_{it[2]}')
+            ed = Edge(el[e['lab']], [node(it[1], a) for a in e['att']], id=None if implicit == 1 else (f'e{it[2]}' if implicit == 2 else f'e{it[1]}_{it[2]}'))
             edges_made[(it[1], it[2])] = ed
             rhs.setdefault(it[1], Graph()).add_edge(ed)
         elif k == 'rule':
@@ -138,11 +140,11 @@ def observe(agp, sched, idx):
     runs = []
     for kind in ('real', 'log', 'mp', 'bool'):
         dtype = torch.bool if kind == 'bool' else (torch.float64 if idx % 2 == 0 else torch.float32)
-        method = c01.METHODS[idx % 3]
-        run = {'sr': c01.CARRIER[kind], 'tag': [kind, method, str(dtype).replace('torch.', ''), 'implicit' if idx % 2 else 'explicit'],
+        method = c01.METHODS[(idx // 3) % 3]
+        run = {'sr': c01.CARRIER[kind], 'tag': [kind, method, str(dtype).replace('torch.', ''), ['explicit', 'implicit', 'explicit_local'][idx % 3]],
                'out': 'ok', 'res': {}, 'hasgrad': False, 'grads': {}}
         try:
-            g = replay_schedule(agp, sched, kind, dtype, implicit=bool(idx % 2))
+            g = replay_schedule(agp, sched, kind, dtype, implicit=idx % 3)
             with warnings.catch_warnings():
                 warnings.simplefilter('ignore')
                 with torch.no_grad():
@@ -155,14 +157,14 @@ def observe(agp, sched, idx):
             run['err'] = str(e)[:200]
         runs.append(run)
     # gradients under this presentation (Real semiring, cotangent all ones)
-    run = {'sr': 'nat', 'tag': ['real', 'grad', 'float64', 'implicit' if idx % 2 else 'explicit'], 'out': 'ok', 'res': {}, 'hasgrad': True, 'grads': {}}
+    run = {'sr': 'nat', 'tag': ['real', 'grad', 'float64', ['explicit', 'implicit', 'explicit_local'][idx % 3]], 'out': 'ok', 'res': {}, 'hasgrad': True, 'grads': {}}
     try:
-        g = replay_schedule(agp, sched, 'real', torch.float64, implicit=bool(idx % 2))
+        g = replay_schedule(agp, sched, 'real', torch.float64, implicit=idx % 3)
         for f in g.factors.values():
             f.weights.requires_grad_()
         with warnings.catch_warnings():
             warnings.simplefilter('ignore')
-            sp = fggs.sum_products(g, method=c01.METHODS[idx % 3], semiring=AG.semiring_for('real', torch.float64))
+            sp = fggs.sum_products(g, method=c01.METHODS[(idx // 3) % 3], semiring=AG.semiring_for("real", torch.float64))
             z = sp[g.start].to_dense()
             if z.requires_grad:
                 z.sum().backward()
@@ -190,9 +192,9 @@ def observe_viterbi(agp, sched, idx):
     sh = AG.shape_of(agp, agp['start'])
     for sa in itertools.product(*[range(s) for s in sh]):
         c = {'ag': {k: agp[k] for k in ('nls', 'els', 'start', 'rules', 'wmp')}, 'sa': list(sa), 'out': 'ok', 'd': [{'rule': 1, 'parent': 0, 'via': 0, 'path': []}],
-             'assts': [[]], 'vit': [0, 0], 'dout': 'ok', 'dw': [0, 0], 'tag': ['presented', 'implicit' if idx % 2 else 'explicit']}
+             'assts': [[]], 'vit': [0, 0], 'dout': 'ok', 'dw': [0, 0], 'tag': ['presented', ['explicit', 'implicit', 'explicit_local'][idx % 3]]}
         try:
-            g = replay_schedule(agp, sched, 'mp', torch.float64, implicit=bool(idx % 2))
+            g = replay_schedule(agp, sched, 'mp', torch.float64, implicit=idx % 3)
             sr = fggs.ViterbiSemiring(dtype=torch.float64)
             with warnings.catch_warnings():
                 warnings.simplefilter('ignore')
@@ -235,6 +237,12 @@ def run(tier, seed):
         for ti in range(ntargets):
             a = AG.gen_ag(rng, n_nts=(1, 3), max_rules=2, max_nodes=3, max_edges=3, recursion='none', weights='primes',
                           p_inf=0.04 if ti % 3 == 0 else 0.0, dom_sizes=(2, 3) if ti % 2 else (1, 2, 3))
+            if ti % 3 == 1 and a['rules']:
+                # a production written down twice counts twice
+                k = rng.randrange(len(a['rules']))
+                a['rules'].insert(rng.randrange(len(a['rules']) + 1), copy.deepcopy(a['rules'][k]))
+                if AG.nat_bound(a) > (1 << 18):
+                    continue
             for pi in range(2 if tier == 'quick' else 3):
                 agp, ren, perm = present(rng, a)
                 nitems = sum(len(r['nodes']) + len(r['edges']) + 1 for r in agp['rules']) + len(agp['nls']) + len(agp['els']) * 2
